@@ -56,7 +56,7 @@ CHECKS = {
  "C17": ("exhaustive enumeration of all 2^32 f32 bit patterns + structured grid and samples of f64 patterns against an independent IEEE-754 decode and an arithmetic confirmation",
          "f32 exhaustive on every run; f64 structured grid (all exponents x special mantissas) plus a sample.",
          "is_denormal(+-0) itself is unconstrained.", "DESIGN.md section 2, C17", "mlv"),
- "C18": ("enumerated grid (every exponent in range x structured kept/dropped bit patterns) + random pairs against an exact integer reference rounding; mask helpers for all widths",
+ "C18": ("enumerated grid (every exponent in range x structured kept/dropped bit patterns) + random pairs against an exact integer reference rounding; mask helpers for all widths; a reduced grid re-run on a 32-bit-usize target under Miri",
          "The rounding primitive is called directly in all configurations; every grid point sits on a rounding decision.",
          "Truncating variant above MAX: +inf and MAX both accepted.", "DESIGN.md section 2, C18", "mlv"),
  "C19": ("property-based testing of the repository's own front-end copies (compiled from the repository sources) against a reference scanner + exact oracle; libFuzzer target fz_frontend under ASan; release and debug-assertion builds",
